@@ -73,6 +73,22 @@ func ruleGuardedWrite(c *Ctx) {
 	// a failing coercion aborts the write
 	c.checkErrorsNotDropped(rule, []string{"(*utils/io.ColumnSeries).CoerceColumnType"}, c.closureScope(fnWriteCSM), 1,
 		"a column that cannot be converted to the bucket's type must reject the write", false)
+	// … and "handled" is not enough: on the failure edge of the coercion nothing may be queued
+	// (logging the error and writing the unconverted column stores bytes of the wrong type)
+	nCo := 0
+	for _, site := range s.sites(callPred(s, "(*utils/io.ColumnSeries).CoerceColumnType")) {
+		call := site.(*ast.CallExpr)
+		r, ok := errEdgeQuery(s, call, s.topOf(call), callPred(s, fnWriteRecords), false)
+		if !ok {
+			c.Undecided(rule, s.Name, "coercion-failure-aborts", "the error of CoerceColumnType is not bound to a variable")
+			continue
+		}
+		nCo++
+		c.reportHits(rule, s, "coercion-failure-aborts", r,
+			"on the failure edge of CoerceColumnType, WriteRecords is unreachable",
+			"WriteRecords is reachable although the coercion of a column failed: the column is written with its original element type into a bucket of another type")
+	}
+	c.Floor(rule, s.Name, "coercion sites in the write path", nCo, 1)
 }
 
 // R14.2 — validate everything before queueing anything.
